@@ -1,0 +1,76 @@
+// Verification hooks, compiled only with `--cfg ragc_verif`.
+//
+// * an event log: `ev(kind, [a, b, c, d])` appends to a global log when logging is on. Callers
+//   emit queue events while holding the queue mutex, so the log order is the linearisation order.
+// * `yield_point(code)`: calls an installable function (no-op unless one is installed) so that a
+//   test harness can perturb the schedule at named points.
+
+use std::cell::Cell;
+use std::sync::atomic::{AtomicBool, AtomicU32, AtomicUsize, Ordering};
+use std::sync::Mutex;
+
+#[derive(Debug, Clone)]
+pub struct Ev {
+    /// logical thread id (set with `set_thread`, otherwise allocated on first use from 1000)
+    pub tid: u32,
+    pub kind: &'static str,
+    pub args: [u64; 4],
+}
+
+static LOGGING: AtomicBool = AtomicBool::new(false);
+static LOG: Mutex<Vec<Ev>> = Mutex::new(Vec::new());
+static NEXT_TID: AtomicU32 = AtomicU32::new(1000);
+static YIELD_FN: AtomicUsize = AtomicUsize::new(0);
+
+thread_local! {
+    static TID: Cell<u32> = const { Cell::new(0) };
+}
+
+pub fn set_thread(id: u32) {
+    TID.with(|t| t.set(id));
+}
+
+pub fn thread_id() -> u32 {
+    TID.with(|t| {
+        if t.get() == 0 {
+            t.set(NEXT_TID.fetch_add(1, Ordering::SeqCst));
+        }
+        t.get()
+    })
+}
+
+pub fn start_logging() {
+    LOG.lock().unwrap().clear();
+    LOGGING.store(true, Ordering::SeqCst);
+}
+
+pub fn stop_logging() -> Vec<Ev> {
+    LOGGING.store(false, Ordering::SeqCst);
+    std::mem::take(&mut *LOG.lock().unwrap())
+}
+
+/// Copy of the log so far (logging continues).
+pub fn snapshot() -> Vec<Ev> {
+    LOG.lock().unwrap().clone()
+}
+
+#[inline]
+pub fn ev(kind: &'static str, args: [u64; 4]) {
+    if LOGGING.load(Ordering::Relaxed) {
+        let tid = thread_id();
+        LOG.lock().unwrap().push(Ev { tid, kind, args });
+    }
+}
+
+pub fn install_yield(f: Option<fn(u32)>) {
+    YIELD_FN.store(f.map(|f| f as usize).unwrap_or(0), Ordering::SeqCst);
+}
+
+#[inline]
+pub fn yield_point(code: u32) {
+    let p = YIELD_FN.load(Ordering::Relaxed);
+    if p != 0 {
+        let f: fn(u32) = unsafe { std::mem::transmute::<usize, fn(u32)>(p) };
+        f(code);
+    }
+}
